@@ -55,7 +55,7 @@ def run(ctx):
         nested["lb"] += 1
     monitors.attach(ctx, dtw, "lb_keogh", lb_post)
 
-    N = 120 if ctx.quick else 2500
+    N = ctx.scale(900, 10000)
     for it in range(N):
         nd = rng.choice([0, 0, 0, 2])
         r = rng.randint(1, 6)
